@@ -143,3 +143,35 @@ use phf::{phf_set, phf_map};
 '''
 
 PHF_NATIVE_DEP = {"phf": '{ version = "0.11", features = ["macros"] }'}
+
+# Fixed-capacity, heap-free stand-in for std Vec under Kani (Vec growth with symbolic lengths makes CBMC run out of
+# memory, DESIGN.md M6).  Same observable behaviour for push/pop/len/is_empty/clear/index/last as long as at most CAP
+# elements are held; a push beyond CAP is assumed away (harnesses keep lengths below CAP and carry cover witnesses).
+# Natively (replay) the real std Vec is used.
+MINIVEC = r'''
+#[cfg(kani)]
+#[allow(dead_code)]
+pub mod minivec {
+    pub const CAP: usize = 4;
+    pub struct Vec<T> { items: [Option<T>; CAP], len: usize }
+    impl<T> Vec<T> {
+        pub fn new() -> Self { Vec { items: [None, None, None, None], len: 0 } }
+        pub fn with_capacity(_n: usize) -> Self { Self::new() }
+        pub fn push(&mut self, t: T) { kani::assume(self.len < CAP); self.items[self.len] = Some(t); self.len += 1; }
+        pub fn pop(&mut self) -> Option<T> { if self.len == 0 { None } else { self.len -= 1; self.items[self.len].take() } }
+        pub fn len(&self) -> usize { self.len }
+        pub fn is_empty(&self) -> bool { self.len == 0 }
+        pub fn clear(&mut self) { let mut i = 0; while i < CAP { self.items[i] = None; i += 1; } self.len = 0; }
+        pub fn last(&self) -> Option<&T> { if self.len == 0 { None } else { self.items[self.len - 1].as_ref() } }
+    }
+    impl<T> core::ops::Index<usize> for Vec<T> {
+        type Output = T;
+        fn index(&self, i: usize) -> &T { assert!(i < self.len, "index out of bounds"); self.items[i].as_ref().unwrap() }
+    }
+    impl<T: Clone> Clone for Vec<T> {
+        fn clone(&self) -> Self { Vec { items: [self.items[0].clone(), self.items[1].clone(), self.items[2].clone(), self.items[3].clone()], len: self.len } }
+    }
+}
+#[cfg(kani)]
+use minivec::Vec;
+'''
